@@ -187,6 +187,9 @@ func runGroup(t *testing.T, rep *ev.Report, probeOn bool, proto, method string) 
 	if res.Panic != nil {
 		rep.HarnessError("panic: %v\n%s", res.Panic, res.Stack)
 	}
+	if res.Hang != "" {
+		rep.Violate(map[string]any{"kind": "hang"}, map[string]any{"hang": res.Hang}, "the exchange never completed: %s", res.Hang)
+	}
 	if res.Deadlock != "" {
 		rep.HarnessError("goroutines left blocked: %s", res.Deadlock)
 	}
